@@ -1,8 +1,10 @@
 #!/bin/bash
 # runs every registered check at the given tier; prints one line per check
-tier="${1:-quick}"
+tier="${1:-quick}"; shift
 cd "$(dirname "$0")/.."
-for id in $(python3 -c "import json;print(' '.join(c['property_id'] for c in json.load(open('MANIFEST.json'))['checks']))"); do
+ids="$*"
+[ -n "$ids" ] || ids=$(python3 -c "import json;print(' '.join(c['property_id'] for c in json.load(open('MANIFEST.json'))['checks']))")
+for id in $ids; do
   s=$(date +%s)
   out=$(./run.sh check $id $tier 2>&1); rc=$?
   e=$(( $(date +%s) - s ))
